@@ -143,3 +143,54 @@ def get_by_path(val, path):
         else:
             cur = cur.fields[0]
     return cur
+
+
+def verifier_types(facts):
+    """Crate types whose destructor (or a crate-local helper it calls) reads an atomic counter: the call-count verifier(s).
+    Found by role, not by name."""
+    out = []
+
+    def loads(fn, depth, seen):
+        b = facts.body(fn)
+        if b is None or fn in seen or depth > 4:
+            return False
+        seen.add(fn)
+        for name, foreign, local, t in facts.callees_of(b):
+            if "atomic::Atomic" in name and name.split("::")[-1] == "load":
+                return True
+            if local and loads(name, depth + 1, seen):
+                return True
+        return False
+    for p, f in facts.fns.items():
+        io = f.get("impl_of")
+        if io and io.get("trait") == "std::ops::Drop" and loads(p, 0, set()):
+            adt = io["self_ty"].get("path")
+            if adt and adt not in out:
+                out.append(adt)
+    return out
+
+
+def mentions_type(ty, paths):
+    """Does the type (JSON) mention one of the ADT paths anywhere?"""
+    for t, _ in components_any(ty):
+        if t.get("k") == "adt" and t.get("path") in paths:
+            return True
+    return False
+
+
+def components_any(ty, depth=0):
+    if not ty or depth > 8:
+        return
+    yield ty, ()
+    k = ty.get("k")
+    if k == "adt":
+        for g in ty.get("args", []):
+            if isinstance(g, dict) and g.get("ty"):
+                yield from components_any(g["ty"], depth + 1)
+    elif k in ("ref", "ptr"):
+        yield from components_any(ty.get("inner"), depth + 1)
+    elif k == "tuple":
+        for e in ty.get("elems", []):
+            yield from components_any(e, depth + 1)
+    elif k in ("array", "slice"):
+        yield from components_any(ty.get("elem"), depth + 1)
